@@ -82,6 +82,7 @@ func libEncode(v any, tag string) (b []byte, err error, stack string) {
 
 // roundTrip is the C04 oracle for one value. v must be addressable-free (a plain value); typ its type.
 func roundTrip(o *fw.Outcome, v reflect.Value, tag, what string) (canon []byte) {
+	fw.Beat()
 	canon, rerr := per.Marshal(v.Interface(), tag)
 	if rerr != nil {
 		if _, isSchema := rerr.(*per.SchemaError); isSchema {
